@@ -390,7 +390,7 @@ Proof.
     rewrite read_data_write. reflexivity.
   - unfold read_item, write_item. cbn [to3 fst]. simpl in H.
     apply negb_true_iff in H. change (NS_CARD, "address-data") with (C "address-data") in H. rewrite H.
-    unfold is_empty_elem. rewrite qname_eqb_refl. reflexivity.
+    reflexivity.
 Qed.
 
 Lemma read_items_write items :
@@ -1318,7 +1318,7 @@ Proof.
     + apply obind_some in Hi. destruct Hi as [d [Hd Hi]]. inversion Hi; subst i.
       destruct (server_reads_data _ _ _ _ Hd) as [w [U V]].
       change (without_nsdecls a) with (real_attrs a). rewrite U. cbn [bind items_data]. exact V.
-    + destruct (is_empty_elem n (n, a, k)); [|discriminate]. inversion Hi; subst i.
+    + inversion Hi; subst i.
       cbn [items_data]. apply IH. exact His.
 Qed.
 
@@ -1571,4 +1571,297 @@ Proof.
     simpl in Hb. apply obind_some in Hb. destruct Hb as [paths [Hp Hb]]. inversion Hb; subst c.
     rewrite (server_reads_multiget up n a k m paths E2 Hm Hp).
     eexists; split; reflexivity.
+Qed.
+
+(* ------------------------------------------------------------------------- *)
+(** * The reference reads every lexical variant of a document alike *)
+
+Lemma forallb_perm {A} (f : A -> bool) l l' : Permutation l l' -> forallb f l = forallb f l'.
+Proof.
+  induction 1; simpl; auto.
+  - congruence.
+  - rewrite !andb_assoc. f_equal. apply andb_comm.
+  - congruence.
+Qed.
+
+Lemma mem_perm x l l' : Permutation l l' -> mem x l = mem x l'.
+Proof.
+  unfold mem. induction 1; simpl; auto.
+  - congruence.
+  - rewrite !orb_assoc. f_equal. apply orb_comm.
+  - congruence.
+Qed.
+
+Lemma nodupb_perm l l' : Permutation l l' -> nodupb l = nodupb l'.
+Proof.
+  induction 1; simpl; auto.
+  - rewrite (mem_perm x l l' H), IHPermutation. reflexivity.
+  - unfold mem; simpl. rewrite (String.eqb_sym x y).
+    destruct (String.eqb y x), (existsb (String.eqb y) l), (existsb (String.eqb x) l); reflexivity.
+  - congruence.
+Qed.
+
+Lemma find_attr_perm x l l' :
+  Permutation l l' -> nodupb (map (fun a : attr => snd (fst a)) l) = true -> find_attr x l = find_attr x l'.
+Proof.
+  induction 1; intros Hnd; simpl; auto.
+  - simpl in Hnd. apply andb_true_iff in Hnd. destruct Hnd as [_ Hnd].
+    rewrite IHPermutation by exact Hnd. reflexivity.
+  - simpl in Hnd. apply andb_true_iff in Hnd. destruct Hnd as [H1 _].
+    apply negb_true_iff in H1. apply mem_false_cons in H1. destruct H1 as [H1 _].
+    destruct (String.eqb (snd (fst x0)) x) eqn:E1, (String.eqb (snd (fst y)) x) eqn:E2; auto.
+    apply String.eqb_eq in E1, E2. congruence.
+  - rewrite IHPermutation1 by exact Hnd. apply IHPermutation2.
+    rewrite <- (nodupb_perm _ _ (Permutation_map _ H)). exact Hnd.
+Qed.
+
+Lemma attrs_ok_perm fs a a' :
+  Permutation (real_attrs a) (real_attrs a') -> attrs_ok fs a' = attrs_ok fs a.
+Proof.
+  intros H. unfold attrs_ok.
+  rewrite (forallb_perm _ _ _ H), (nodupb_perm _ _ (Permutation_map _ H)). reflexivity.
+Qed.
+
+Lemma get_attr_perm fs x a a' :
+  Permutation (real_attrs a) (real_attrs a') -> attrs_ok fs a = true -> get_attr x a' = get_attr x a.
+Proof.
+  intros H Hok. apply attrs_ok_split in Hok. destruct Hok as [_ Hnd].
+  unfold get_attr. symmetry. apply find_attr_perm; auto.
+Qed.
+
+Definition var3 (e e' : elem3) : Prop :=
+  fst (fst e') = fst (fst e) /\
+  Permutation (real_attrs (snd (fst e))) (real_attrs (snd (fst e'))) /\
+  var_kids (kind_of (fst (fst e))) (snd e) (snd e').
+
+Lemma elems_var k k' :
+  var_kids KElems k k' ->
+  (elems k = None /\ elems k' = None) \/
+  (exists es es', elems k = Some es /\ elems k' = Some es' /\ Forall2 var3 es es').
+Proof.
+  intros H. remember KElems as c eqn:Ec. induction H; subst.
+  - right. exists [], []. auto.
+  - specialize (IHvar_kids eq_refl). inversion H; subst; simpl.
+    + destruct IHvar_kids as [[E1 E2]|[es [es' [E1 [E2 F]]]]]; rewrite E1, E2; simpl; auto.
+      right. do 2 eexists. split; [reflexivity|]. split; [reflexivity|].
+      constructor; auto. unfold var3; simpl; auto.
+    + destruct (is_ws s); auto.
+    + auto.
+  - simpl. auto.
+  - simpl. rewrite H. auto.
+  - discriminate.
+Qed.
+
+Lemma pcdata_var k k' : var_kids KText k k' -> pcdata k' = pcdata k.
+Proof.
+  intros H. remember KText as c eqn:Ec. induction H; subst.
+  - reflexivity.
+  - specialize (IHvar_kids eq_refl). inversion H; subst; simpl; auto. rewrite IHvar_kids. reflexivity.
+  - simpl. auto.
+  - discriminate.
+  - specialize (IHvar_kids eq_refl). simpl. rewrite IHvar_kids.
+    destruct (pcdata r); simpl; [|reflexivity]. rewrite append_assoc. reflexivity.
+Qed.
+
+Lemma empty_var k k' : var_kids KEmpty k k' -> no_content k' = no_content k.
+Proof.
+  intros H. remember KEmpty as c eqn:Ec. induction H; subst.
+  - reflexivity.
+  - reflexivity.
+  - contradiction.
+  - discriminate.
+  - discriminate.
+Qed.
+
+Lemma is_empty_elem_var name e e' :
+  kind_of name = KEmpty -> var3 e e' -> is_empty_elem name e' = is_empty_elem name e.
+Proof.
+  intros Hk [Hn [Hp Hv]]. destruct e as [[n a] k], e' as [[n' a'] k']. cbn [fst snd] in *. subst n'.
+  unfold is_empty_elem. destruct (qname_eqb n name) eqn:E; [|reflexivity].
+  apply qname_eqb_spec in E. subst n. rewrite Hk in Hv.
+  rewrite (attrs_ok_perm [] a a' Hp), (empty_var _ _ Hv). reflexivity.
+Qed.
+
+Lemma omapM_Forall2 {A B} (R : A -> A -> Prop) (f : A -> option B) es es' :
+  Forall2 R es es' -> (forall e e', R e e' -> f e' = f e) -> omapM f es' = omapM f es.
+Proof.
+  intros F H. induction F; simpl; auto. rewrite (H _ _ H0), IHF. reflexivity.
+Qed.
+
+Lemma read_tm_var e e' : var3 e e' -> read_tm e' = read_tm e.
+Proof.
+  intros [Hn [Hp Hv]]. destruct e as [[n a] k], e' as [[n' a'] k']. cbn [fst snd] in *. subst n'.
+  unfold read_tm. destruct (qname_eqb n (C "text-match")) eqn:E; [|reflexivity]. cbn [negb].
+  apply qname_eqb_spec in E. subst n. change (kind_of (C "text-match")) with KText in Hv.
+  rewrite (attrs_ok_perm _ a a' Hp).
+  destruct (attrs_ok ["collation"; "negate-condition"; "match-type"] a) eqn:Ea; [|reflexivity]. cbn [negb].
+  rewrite !(get_attr_perm _ _ a a' Hp Ea), (pcdata_var _ _ Hv). reflexivity.
+Qed.
+
+Lemma read_param_var e e' : var3 e e' -> read_param e' = read_param e.
+Proof.
+  intros [Hn [Hp Hv]]. destruct e as [[n a] k], e' as [[n' a'] k']. cbn [fst snd] in *. subst n'.
+  unfold read_param. destruct (qname_eqb n (C "param-filter")) eqn:E; [|reflexivity]. cbn [negb].
+  apply qname_eqb_spec in E. subst n. change (kind_of (C "param-filter")) with KElems in Hv.
+  rewrite (attrs_ok_perm _ a a' Hp).
+  destruct (attrs_ok ["name"] a) eqn:Ea; [|reflexivity]. cbn [negb].
+  rewrite (get_attr_perm _ _ a a' Hp Ea).
+  destruct (get_attr "name" a); cbn [obind]; [|reflexivity].
+  destruct (elems_var _ _ Hv) as [[E1 E2]|[es [es' [E1 [E2 F]]]]]; rewrite E1, E2; [reflexivity|].
+  cbn [obind]. inversion F as [|c c' rr rr' Hc Fr]; subst; [reflexivity|].
+  inversion Fr; subst; [|reflexivity].
+  rewrite (is_empty_elem_var (C "is-not-defined") c c' eq_refl Hc), (read_tm_var _ _ Hc). reflexivity.
+Qed.
+
+Lemma read_pf_kids_var es es' : Forall2 var3 es es' -> read_pf_kids es' = read_pf_kids es.
+Proof.
+  induction 1; simpl; auto.
+  rewrite IHForall2. destruct H as [Hn Hrest]. rewrite Hn.
+  assert (V : var3 x y) by (split; auto).
+  rewrite (read_tm_var _ _ V), (read_param_var _ _ V). reflexivity.
+Qed.
+
+Lemma read_pf_var e e' : var3 e e' -> read_pf e' = read_pf e.
+Proof.
+  intros [Hn [Hp Hv]]. destruct e as [[n a] k], e' as [[n' a'] k']. cbn [fst snd] in *. subst n'.
+  unfold read_pf. destruct (qname_eqb n (C "prop-filter")) eqn:E; [|reflexivity]. cbn [negb].
+  apply qname_eqb_spec in E. subst n. change (kind_of (C "prop-filter")) with KElems in Hv.
+  rewrite (attrs_ok_perm _ a a' Hp).
+  destruct (attrs_ok ["name"; "test"] a) eqn:Ea; [|reflexivity]. cbn [negb].
+  rewrite !(get_attr_perm _ _ a a' Hp Ea).
+  destruct (get_attr "name" a); cbn [obind]; [|reflexivity].
+  destruct (val_test (get_attr "test" a)); cbn [obind]; [|reflexivity].
+  destruct (elems_var _ _ Hv) as [[E1 E2]|[es [es' [E1 [E2 F]]]]]; rewrite E1, E2; [reflexivity|].
+  cbn [obind]. rewrite (read_pf_kids_var _ _ F).
+  inversion F as [|c c' rr rr' Hc Fr]; subst; [reflexivity|].
+  inversion Fr; subst; [|reflexivity].
+  rewrite (is_empty_elem_var (C "is-not-defined") c c' eq_refl Hc). reflexivity.
+Qed.
+
+Lemma read_filter_var e e' : var3 e e' -> read_filter e' = read_filter e.
+Proof.
+  intros [Hn [Hp Hv]]. destruct e as [[n a] k], e' as [[n' a'] k']. cbn [fst snd] in *. subst n'.
+  unfold read_filter. destruct (qname_eqb n (C "filter")) eqn:E; [|reflexivity]. cbn [negb].
+  apply qname_eqb_spec in E. subst n. change (kind_of (C "filter")) with KElems in Hv.
+  rewrite (attrs_ok_perm _ a a' Hp).
+  destruct (attrs_ok ["test"] a) eqn:Ea; [|reflexivity]. cbn [negb].
+  rewrite (get_attr_perm _ _ a a' Hp Ea).
+  destruct (val_test (get_attr "test" a)); cbn [obind]; [|reflexivity].
+  destruct (elems_var _ _ Hv) as [[E1 E2]|[es [es' [E1 [E2 F]]]]]; rewrite E1, E2; [reflexivity|].
+  cbn [obind]. rewrite (omapM_Forall2 var3 read_pf es es' F read_pf_var). reflexivity.
+Qed.
+
+Lemma read_limit_var e e' : var3 e e' -> read_limit e' = read_limit e.
+Proof.
+  intros [Hn [Hp Hv]]. destruct e as [[n a] k], e' as [[n' a'] k']. cbn [fst snd] in *. subst n'.
+  unfold read_limit. rewrite (attrs_ok_perm _ a a' Hp).
+  destruct (qname_eqb n (C "limit")) eqn:E; [|reflexivity].
+  apply qname_eqb_spec in E. subst n. change (kind_of (C "limit")) with KElems in Hv.
+  destruct (attrs_ok [] a); [|reflexivity]. cbn [andb negb].
+  destruct (elems_var _ _ Hv) as [[E1 E2]|[es [es' [E1 [E2 F]]]]]; rewrite E1, E2; [reflexivity|].
+  cbn [obind]. inversion F as [|c c' rr rr' Hc Fr]; subst; [reflexivity|].
+  destruct Hc as [Hn1 [Hp1 Hv1]]. destruct c as [[n1 a1] k1], c' as [[n1' a1'] k1']. cbn [fst snd] in *. subst n1'.
+  inversion Fr; subst; [|reflexivity].
+  rewrite (attrs_ok_perm _ a1 a1' Hp1).
+  destruct (qname_eqb n1 (C "nresults")) eqn:E1'; [|reflexivity].
+  apply qname_eqb_spec in E1'. subst n1. change (kind_of (C "nresults")) with KText in Hv1.
+  rewrite (pcdata_var _ _ Hv1). reflexivity.
+Qed.
+
+Lemma read_cprop_var e e' : var3 e e' -> read_cprop e' = read_cprop e.
+Proof.
+  intros [Hn [Hp Hv]]. destruct e as [[n a] k], e' as [[n' a'] k']. cbn [fst snd] in *. subst n'.
+  unfold read_cprop. rewrite (attrs_ok_perm _ a a' Hp).
+  destruct (qname_eqb n (C "prop")) eqn:E; [|reflexivity].
+  apply qname_eqb_spec in E. subst n. change (kind_of (C "prop")) with KEmpty in Hv.
+  rewrite (empty_var _ _ Hv).
+  destruct (attrs_ok ["name"; "novalue"] a) eqn:Ea; [|reflexivity]. cbn [andb].
+  rewrite !(get_attr_perm _ _ a a' Hp Ea). reflexivity.
+Qed.
+
+Lemma read_data_var e e' : var3 e e' -> read_data e' = read_data e.
+Proof.
+  intros [Hn [Hp Hv]]. destruct e as [[n a] k], e' as [[n' a'] k']. cbn [fst snd] in *. subst n'.
+  unfold read_data. rewrite (attrs_ok_perm _ a a' Hp).
+  destruct (qname_eqb n (C "address-data")) eqn:E; [|reflexivity].
+  apply qname_eqb_spec in E. subst n. change (kind_of (C "address-data")) with KElems in Hv.
+  destruct (attrs_ok [] a); [|reflexivity]. cbn [andb negb].
+  destruct (elems_var _ _ Hv) as [[E1 E2]|[es [es' [E1 [E2 F]]]]]; rewrite E1, E2; [reflexivity|].
+  cbn [obind]. rewrite (omapM_Forall2 var3 read_cprop es es' F read_cprop_var).
+  inversion F as [|c c' rr rr' Hc Fr]; subst; [reflexivity|].
+  inversion Fr; subst; [|reflexivity].
+  rewrite (is_empty_elem_var (C "allprop") c c' eq_refl Hc). reflexivity.
+Qed.
+
+Lemma read_item_var e e' : var3 e e' -> read_item e' = read_item e.
+Proof.
+  intros V. unfold read_item. rewrite (read_data_var _ _ V). destruct V as [Hn _]. rewrite Hn. reflexivity.
+Qed.
+
+Lemma read_sel_var e e' : var3 e e' -> read_sel e' = read_sel e.
+Proof.
+  intros V. unfold read_sel.
+  destruct e as [[n a] k], e' as [[n' a'] k'].
+  rewrite (is_empty_elem_var (D "allprop") _ _ eq_refl V), (is_empty_elem_var (D "propname") _ _ eq_refl V).
+  destruct V as [Hn [Hp Hv]]. cbn [fst snd] in *. subst n'.
+  rewrite (attrs_ok_perm _ a a' Hp).
+  destruct (is_empty_elem (D "allprop") (n, a, k)); [reflexivity|].
+  destruct (is_empty_elem (D "propname") (n, a, k)); [reflexivity|].
+  destruct (qname_eqb n (D "prop")) eqn:E; [|reflexivity].
+  apply qname_eqb_spec in E. subst n. change (kind_of (D "prop")) with KElems in Hv.
+  destruct (attrs_ok [] a); [|reflexivity]. cbn [andb].
+  destruct (elems_var _ _ Hv) as [[E1 E2]|[es [es' [E1 [E2 F]]]]]; rewrite E1, E2; [reflexivity|].
+  cbn [obind]. rewrite (omapM_Forall2 var3 read_item es es' F read_item_var). reflexivity.
+Qed.
+
+Lemma read_query_kids_var es es' : Forall2 var3 es es' -> forall acc, read_query_kids es' acc = read_query_kids es acc.
+Proof.
+  induction 1; intros acc; simpl; auto.
+  pose proof H as [Hn _]. rewrite Hn.
+  rewrite (read_sel_var _ _ H), (read_filter_var _ _ H), (read_limit_var _ _ H).
+  destruct (is_sel_name (fst (fst x))).
+  { destruct (qa_sel acc); [reflexivity|]. destruct (read_sel x); simpl; auto. }
+  destruct (qname_eqb (fst (fst x)) (C "filter")).
+  { destruct (qa_filter acc); [reflexivity|]. destruct (read_filter x); simpl; auto. }
+  destruct (qname_eqb (fst (fst x)) (C "limit")); [|reflexivity].
+  destruct (qa_limit acc); [reflexivity|]. destruct (read_limit x); simpl; auto.
+Qed.
+
+Lemma read_href_var e e' : var3 e e' -> read_href e' = read_href e.
+Proof.
+  intros [Hn [Hp Hv]]. destruct e as [[n a] k], e' as [[n' a'] k']. cbn [fst snd] in *. subst n'.
+  unfold read_href. rewrite (attrs_ok_perm _ a a' Hp).
+  destruct (qname_eqb n (D "href")) eqn:E; [|reflexivity].
+  apply qname_eqb_spec in E. subst n. change (kind_of (D "href")) with KText in Hv.
+  rewrite (pcdata_var _ _ Hv). reflexivity.
+Qed.
+
+Lemma read_multiget_kids_var es es' :
+  Forall2 var3 es es' -> forall sel, read_multiget_kids es' sel = read_multiget_kids es sel.
+Proof.
+  induction 1; intros sel; simpl; auto.
+  pose proof H as [Hn _]. rewrite Hn.
+  rewrite (read_sel_var _ _ H), (read_href_var _ _ H).
+  destruct (is_sel_name (fst (fst x))).
+  { destruct sel; [reflexivity|]. destruct (read_sel x); simpl; auto. }
+  destruct (qname_eqb (fst (fst x)) (D "href")); [|reflexivity].
+  destruct (read_href x); simpl; [|reflexivity]. rewrite IHForall2. reflexivity.
+Qed.
+
+Theorem rfc_read_var d d' : var d d' -> rfc_read d' = rfc_read d.
+Proof.
+  intros H. inversion H as [n a a' k k' Hp Hv| |]; subst; try reflexivity.
+  unfold rfc_read.
+  destruct (qname_eqb n (C "addressbook-query")) eqn:E1.
+  - apply qname_eqb_spec in E1. subst n. change (kind_of (C "addressbook-query")) with KElems in Hv.
+    unfold read_query. rewrite (attrs_ok_perm _ a a' Hp).
+    destruct (attrs_ok [] a); [|reflexivity]. cbn [negb].
+    destruct (elems_var _ _ Hv) as [[E1 E2]|[es [es' [E1 [E2 F]]]]]; rewrite E1, E2; [reflexivity|].
+    cbn [obind]. rewrite (read_query_kids_var _ _ F). reflexivity.
+  - destruct (qname_eqb n (C "addressbook-multiget")) eqn:E2; [|reflexivity].
+    apply qname_eqb_spec in E2. subst n. change (kind_of (C "addressbook-multiget")) with KElems in Hv.
+    unfold read_multiget. rewrite (attrs_ok_perm _ a a' Hp).
+    destruct (attrs_ok [] a); [|reflexivity]. cbn [negb].
+    destruct (elems_var _ _ Hv) as [[E1' E2']|[es [es' [E1' [E2' F]]]]]; rewrite E1', E2'; [reflexivity|].
+    cbn [obind]. rewrite (read_multiget_kids_var _ _ F). reflexivity.
 Qed.
